@@ -3,7 +3,7 @@ from . import passes
 
 PROP = 'C09'
 CONFIGS = {
-    'quick': [('subcircuits', ('H_M', 'M_S', 'T_S', 'O_S', 3, 3), 5000)],
+    'quick': [('subcircuits', ('H_M', 'M_S', 'T_S', 'O_S', 2, 4), 5000)],
     'thorough': [('subcircuits', ('H_M', 'M_S', 'T_S', 'O_S', 4, 4), 80000)],
 }
 OWNED = {'accepted', 'no_sub_left', 'brackets', 'header_carried', 'macros_kept', 'macro_brackets', 'imports_carried'}
